@@ -64,6 +64,32 @@ func main() {
 				}
 				if fn := p.Func(n1); fn != nil {
 					anon(fn)
+					// unexported helpers of the same package that the anchor calls directly are part of
+					// its mechanism (depth 1)
+					for _, b := range fn.Blocks {
+						for _, in := range b.Instrs {
+							ci, ok := in.(ssa.CallInstruction)
+							if !ok {
+								continue
+							}
+							cal := ci.Common().StaticCallee()
+							if cal == nil || cal.Pkg != fn.Pkg || cal.Blocks == nil || cal.Parent() != nil || cal.Synthetic != "" {
+								continue
+							}
+							if obj := cal.Object(); obj == nil || obj.Exported() {
+								continue
+							}
+							hn := fullFuncName(cal)
+							if discovered[hn] {
+								continue
+							}
+							discovered[hn] = true
+							if err := discoverGuards(p, hn, "", track); err != nil {
+								fmt.Println("ERR", err)
+							}
+							anon(cal)
+						}
+					}
 				}
 			}
 		}
